@@ -187,6 +187,13 @@ Fixpoint dtick_all (cols now : Z) (anims : list (style * dstate)) : list (style 
       ((sty, st') :: rest', ev ++ ev')
   end.
 
+(* LCDAnimate emission (emitter.py 1545-1549): the speed argument is passed as
+   static_cast<unsigned long>(speed_expr).  W = width of unsigned long (32 on AVR, 64 on the mock's
+   host compiler): a negative speed_ms becomes a huge period. *)
+Definition ulong_cast (W speed : Z) : Z := speed mod 2 ^ W.
+Definition dstart_emit (W : Z) (sty : style) (cols row : Z) (text : list Z) (speed : Z) (loop : bool)
+  : dstate * list dev := dstart sty cols row text (ulong_cast W speed) loop.
+
 (* setup(): the start helpers of one display's lcd.animate calls, in call order
    (call = style, row, text, speed_ms, loop) *)
 Definition dcall := (style * Z * list Z * Z * bool)%type.
